@@ -334,11 +334,14 @@ func (r *realm) onJoin(sess *wamp.Session) {
 	sess.Lock()
 	output := r.cleanSessionDetails(sess.Details)
 	sess.Unlock()
-	r.metaPeer.Send() <- &wamp.Publish{
+	// The event is handed to the broker here, not queued for the meta session's
+	// handler: the session is welcomed only after this returns, so that
+	// whatever it subscribes to afterwards comes after its own on_join.
+	r.broker.publish(r.metaSess, &wamp.Publish{
 		Request:   wamp.GlobalID(),
 		Topic:     wamp.MetaEventSessionOnJoin,
 		Arguments: wamp.List{output},
-	}
+	})
 }
 
 // onLeave is called when a non-meta session leaves this realm. The session is
